@@ -23,6 +23,12 @@ def cfg(n, a, b, vsn=8, fmax=12, **kw):
     return ob('chkpnt_fault_%dtasks_own%d%d_vsn%d' % (n, a, b, vsn), ['CFG_NTASK=%d' % n, 'CFG_OWN0=%d' % a, 'CFG_OWN1=%d' % b, 'VSN=%d' % vsn, 'FAULTMAX=%d' % fmax], excludes=['C06-1'],
               bounds='%d task(s) owned by users %d/%d, user 1 dirty; every formatted field %d bytes; the failing system call is any of the first %d (or none), failing outright or short' % (n, a, b, vsn, fmax), **kw)
 OBLIGATIONS = [cfg(*c) for c in CFGS] + [cfg(*c, vsn=40, fmax=30, tiers=('thorough',), timeout=3000) for c in CFGS] + [
+    dict(name='dirty_users_all_checkpointed', src='h_dirty.c', defs=['NADD=18'], units=[], incl=['src/echsd.c'], replay_units='all', replay_extra_units=['src/logger.c'],
+         unwind=20, unwindset={'sym_load.*': 20}, solver='cadical', timeout=900, mem_gb=12, object_bits=12, checks=['--bounds-check'],
+         replace_calls={'chkpnt1': 'rec_chkpnt1', 'chkpnta': 'rec_chkpnta', 'ndtr_t_NEDTRIE_INSERT': 'rec_trie_insert'},
+         allow_nobody=['echs_log', 'echs_errlog', 'snprintf'], enc=['add_chkpnt', 'chkpnt'], sym='how many change notes (0..18) and whose (4 users)',
+         bounds='up to 18 notes between two checkpoints (the dirty list holds 16)', outside='the file handling of chkpnt1/chkpnta (other obligations / outside)',
+         stubs=['chkpnt1/chkpnta replaced by recorders', 'trie insertion cut (backs chkpntedp() only)']),
     ob('kf_write_error_ignored', ['CFG_NTASK=2', 'CFG_OWN0=1', 'CFG_OWN1=1', 'VSN=8'], expect='kf', kf='C06-1', witness=False),
     ob('chkpnt_single_fault', [], excludes=['C06-1'], tiers=('thorough',), timeout=3400),
 ]
